@@ -41,6 +41,11 @@ X_BLOCKS = [
     '@preamble{"p"}',
     '@book{xk2,\n a = "x, y",\n}',
     "@misc{xk3}",
+    # every lexical state of the value scanner occurs at some truncation point: braces inside quotes (two deep),
+    # quotes inside braces, concatenation, multi-line
+    '@misc{xk4, t = "a {b} c", u = {d "e" f}}',
+    '@a{xk6, v = "q {r {s} t} u" # xs,\n w = {x {y "z" } }\n}',
+    '@string{xs2 = "m {n} o" # {p}}',
 ]
 ROUTES = ("split", "default")
 
